@@ -64,7 +64,7 @@ theorem pop_is_earliest {a a' : Array Item} {x : Item} (h : Heap.Ordered Item.de
   Heap.pop_ordered Item.deadline h hp
 
 /-! ## Non-vacuity: the two shapes that used to strand a flow (D7, D8) now keep the invariant -/
-def r1 : InRec := { key := 1, flowType := 1, corr := [.str [1], .str [], .str [], .str [2], .str [], .str [], .ip4 [0,0,0,0], .num 0, .num 0, .num 0, .num 0],
+def r1 : InRec := { key := 1, flowType := 1, corr := [.str [1], .str [], .str [], .str [2], .str [], .str [], .ip4 [0,0,0,0], .num 0, .num 0, .num 0, .num 0, .ip6 zero16],
                     start := 100, end_ := 101, endReason := 2, tcpState := [], stats := [1, 1, 1, 1, 1, 1, 1, 1] }
 /-- D8: the deadline equals the scan time (record at t = 0, active timeout 100, scan at t = 100) -/
 example : let s := [Op.record r1, .adv 100, .scan [] false].foldl step { activeT := 100, inactiveT := 250 }
